@@ -1608,7 +1608,7 @@ def judge_integral(chk, case, bi, spec, d, a, b, an, nu, exact=None, cur=None, f
     ok_num = ref is None or (len(ref) == len(an['vals']) and all(close(x, y, tol_r, tol_r) for x, y in zip(an['vals'], ref)))
     ok_exact = True
     if exact is not None:
-        ok_exact = len(an['vals']) == 1 and close(an['vals'][0], float(exact), exact_tol[0], exact_tol[1])
+        ok_exact = len(an['vals']) >= 1 and all(close(v_, float(exact), exact_tol[0], exact_tol[1]) for v_ in an['vals'])
         if ref is not None and not close(ref[0], float(exact), tol_r, tol_r):
             chk.violation('corr:C12/quadrature_vs_formal_integral', 'numeric-vs-formal-integral', sig, fc,
                           dict(numeric=ref, formal=str(exact)), failing_input=False)
@@ -1912,6 +1912,70 @@ def oracle_integral_history(case, r):
     return bad
 
 
+def sym_float(symw, y1=1.0):
+    """Floating-point value (and a conditioning bound) of a symbolic result of the model: product of sums of coefficient * atom."""
+    val, cond = 1.0, 1.0
+    for lin in symw:
+        sv, sc = 0.0, 0.0
+        for coef, atom in lin:
+            a = math.exp(qf(atom[1])) if atom[0] == 0 else (qf(atom[1]) ** y1 if atom[0] == 1 else 1.0)
+            sv += qf(coef) * a
+            sc += abs(qf(coef) * a)
+        val *= sv
+        cond *= sc
+    return val, cond
+
+
+SYMBOLIC = ('GenzDiscontinious', 'GenzDiscontinious2', 'GenzC0', 'FunctionExpVar', 'FunctionDiagonalDiscont', 'FunctionG')
+
+
+def sym_query(c):
+    R = sx.rat
+    cls, p = c['fn']['cls'], c['fn'].get('p', {})
+    pts = [[R(x) for x in q_] for q_ in c['points']]
+    boxes = [[[R(x) for x in a], [R(x) for x in b]] for a, b in c['boxes']]
+    if cls in ('GenzDiscontinious', 'GenzDiscontinious2'):
+        return (5, [[R(x) for x in p['coeffs']], [R(x) for x in p['border']], pts, boxes])
+    if cls == 'GenzC0':
+        return (6, [[R(x) for x in p['coeffs']], [R(x) for x in p['mid']], pts, boxes])
+    if cls == 'FunctionExpVar':
+        return (7, boxes)
+    return (8, [0 if cls == 'FunctionDiagonalDiscont' else 1, pts, boxes])
+
+
+def sym_box_value(cls, m, bi):
+    """(float value of the model's analytic integral for box bi, absolute tolerance) or None"""
+    if cls in ('GenzDiscontinious', 'GenzDiscontinious2'):
+        e = m[1][bi]
+        v, cond = (0.0, 0.0) if e[0] == 0 else sym_float(e[1])
+    elif cls == 'GenzC0':
+        v, cond = sym_float(m[1][bi])
+    elif cls == 'FunctionExpVar':
+        e = m[bi]
+        if e[0] == 0:
+            return None
+        y, k = qf(e[1]), qf(e[2])
+        v, cond = sym_float(e[3], 1.0 + y)
+        v, cond = k * v, k * cond
+    else:
+        e = m[1][bi]
+        if e[0] != 0:
+            return None
+        v, cond = qf(e[1]), 0.0
+    return v, 1e-13 + 64 * 2.3e-16 * cond
+
+
+def sym_point_value(cls, m, k):
+    if cls in ('GenzDiscontinious', 'GenzDiscontinious2'):
+        e = m[0][k]
+        return 0.0 if e[0] == 0 else math.exp(qf(e[1]))
+    if cls == 'GenzC0':
+        return math.exp(qf(m[0][k]))
+    if cls == 'FunctionExpVar':
+        return None
+    return qf(m[0][k])
+
+
 def check_integral_cases(chk, cases):
     impl = run_impl(impl_integral, cases, limit=300)
     mcases, midx = [], []
@@ -1928,8 +1992,10 @@ def check_integral_cases(chk, cases):
     R = sx.rat
     cp_cases = [(4, [[R(x) for x in cases[ci]['fn']['p']['coeffs']], [[R(x) for x in p] for p in cases[ci]['points']],
                      [[[R(x) for x in a], [R(x) for x in b]] for a, b in cases[ci]['boxes']]]) for ci in cp_idx]
-    allres = run_model(12, mcases + cp_cases)
-    cpres = dict(zip(cp_idx, allres[len(mcases):]))
+    sy_idx = [ci for ci, c in enumerate(cases) if c['fn']['cls'] in SYMBOLIC]
+    allres = run_model(12, mcases + cp_cases + [sym_query(cases[ci]) for ci in sy_idx])
+    cpres = dict(zip(cp_idx, allres[len(mcases):len(mcases) + len(cp_cases)]))
+    syres = dict(zip(sy_idx, allres[len(mcases) + len(cp_cases):]))
     mres = {}
     for (ci, d), m in zip(midx, allres[:len(mcases)]):
         mres.setdefault(ci, {})[d] = m
@@ -1998,6 +2064,15 @@ def check_integral_cases(chk, cases):
                     if sx.q(mi[1]) != sx.q(mst):
                         chk.violation('theorem:cornerpeak_integral_is_iterated_difference', 'model-integral-vs-stencil', {'cls': cls},
                                       dict(c, boxes=[[a, b]], points=[]), dict(coded=str(sx.q(mi[1])), stencil=str(sx.q(mst))), failing_input=False)
+            sm = syres.get(ci)
+            if sm is not None and (sx.is_err(sm) or isinstance(sm, tuple)):
+                if bi == 0:
+                    chk.violation('corr:C12/integral', 'model-rejects', {'cls': cls}, c, dict(model=str(sm)[:300]), failing_input=False)
+            elif sm is not None:
+                sv = sym_box_value(cls, sm, bi)      # the executable symbolic / exact model of the class (phase 3)
+                if sv is not None:
+                    exact, exact_tol = sv[0], (1e-9, sv[1])
+                    chk.count('symbolic-model:integral-cls=' + cls)
             verdict = judge_integral(chk, c, bi, spec, d, a, b, rec['analytic'], rec['numeric'], exact, cur, fixd, exact_tol)
             chk.count('integral:verdict=' + str(verdict))
             for path, th in rec['through'].items():
@@ -2018,6 +2093,17 @@ def check_integral_cases(chk, cases):
             rep.add(key)
             chk.violation('oracle:integral_history_independent' if kind != 'value-differs' else 'oracle:cache_transparent',
                           kind, sig, hist, detail)
+        sm = syres.get(ci)
+        if sm is not None and not sx.is_err(sm) and not isinstance(sm, tuple):
+            for k_, (p, pr) in enumerate(zip(c['points'], r['points'])):
+                mvp = sym_point_value(cls, sm, k_)
+                if mvp is None or pr['st'] != 'ok':
+                    continue
+                if not all(close(x_, mvp) for x_ in pr['eval']):
+                    chk.violation('corr:C12/symbolic_eval', 'symbolic-eval-differs', {'cls': cls}, dict(c, boxes=[], points=[p]),
+                                  dict(impl=pr['eval'], model=mvp), failing_input=False)
+                else:
+                    chk.count('symbolic-model:eval-cls=' + cls)
         cp = cpres.get(ci)
         if cp is not None and not sx.is_err(cp) and not isinstance(cp, tuple):
             for p, pr, (me, mv) in zip(c['points'], r['points'], cp[0]):
